@@ -1808,11 +1808,6 @@ func (c *Client) doSetup(
 		th.InterleavedIDs = &[2]int{ch, ch + 1}
 	}
 
-	mediaURL, err := medi.URL(baseURL)
-	if err != nil {
-		return nil, err
-	}
-
 	header := base.Header{
 		"Transport": th.Marshal(),
 	}
@@ -1828,6 +1823,11 @@ func (c *Client) doSetup(
 	if hasH264PacketizationMode0(medi.Formats) &&
 		((c.state != clientStateInitial && c.state != clientStatePrePlay) || protocol != ProtocolTCP) {
 		return nil, liberrors.ErrClientH264PacketizationMode0{}
+	}
+
+	mediaURL, err := medi.URL(baseURL)
+	if err != nil {
+		return nil, err
 	}
 
 	if isSecure(th.Profile) {
